@@ -166,8 +166,6 @@ def gen_reg(rng, pool=None):
         return r.upper()
     if x < 0.09:
         return r.capitalize()
-    if x < 0.11:
-        return "".join(rng.choice(ALNUM) for _ in range(rng.randint(1, 5)))
     return r
 
 
@@ -427,6 +425,47 @@ def gen_file(rng, nlines=None):
             text += "\r"
         lines.append((exp, text))
     return lines
+
+
+# --------------------------------------------------------------------------- extended stream
+# well-formed for the grammar but outside the property's AST domain: compared model vs
+# implementation only (no expected value).
+
+
+def gen_extended_line(rng):
+    n = rng.choice([1, 1, 2, 2, 3, 4])
+    parts = []
+    for i in range(n):
+        x = rng.random()
+        if x < 0.2:
+            t = "%" + "".join(rng.choice(ALNUM) for _ in range(rng.randint(1, 5)))
+        elif x < 0.4:
+            t = "%" + rng.choice(VEC) + rng.choice(["{%k1}", "{k2}", "{%k1}{z}", " {%k3} {z}", "{%k1}{zz}", "{%k1}{z", "(1)", " (7)"])
+        elif x < 0.5:
+            t = rng.choice(["%st(1)", "%st (3)", "*%rax", "*8(%rax)", "*foo", "*.L1(%rip)", "*%gs:8"])
+        elif x < 0.6:
+            t = rng.choice(["%fs:", "%gs:", "%es:"]) + rng.choice(["8", "0x28", "(%rax)", "8(%rax,%rbx,2)", "foo", "", "-8"])
+        elif x < 0.7:
+            t = rng.choice(LABELS) + rng.choice(["@PLT", "@GOTPCREL(%rip)", "+8", "-4(%rip)", " + 8", "@PLT+4", "+8(%rip)", " 8"])
+        elif x < 0.78:
+            t = rng.choice(["1b", "2f", "3B", "12 f", "1", "5+foo", "5 + foo(%rip)"])
+        elif x < 0.86:
+            m = gen_mem(rng)
+            t = render_operand(rng, m, i == 0) + rng.choice(["{%k1}", "{k1}", ""])
+        elif x < 0.93:
+            t = rng.choice(["(%rax,4)", "(%rax,%rbx,)", "(,%rbx)", "()", "8()", "(,,8)", "(%rax,,2)", "010", "-010", "$010", "$00", "0x", "$0X10", "$-0", "-0"])
+        else:
+            t = render_operand(rng, gen_operand(rng, i == 0), i == 0)
+        parts.append(t)
+    mn = rng.choice(["data16 ", "data32 data16 ", "data16", "", "", "", ""]) + gen_mnemonic(rng) + rng.choice(["", "", "", ",pt", ","])
+    line = ws(rng) + mn + ws(rng, allow_empty=False)
+    for i, t in enumerate(parts):
+        if i:
+            line += rng.choice([",", ", ", " , ", " ", "  ", ",,"])
+        line += t
+    if rng.random() < 0.2:
+        line += ws(rng) + render_comment(rng, gen_comment_words(rng))
+    return line
 
 
 # --------------------------------------------------------------------------- malformed stream
